@@ -53,6 +53,16 @@ CHECKS["C10"] = dict(
     technique="Coq proof (big/little-endian word round trips, chunk reassembly by induction on the partition) + vm_compute correspondence against a reference DAP4 encoder",
     design="7/C10")
 
+CHECKS["C16"] = dict(
+    text="Machine-checked proof (Coq) over an abstract file system: for every layout, root and request path every path the "
+         "directory server stats, lists or opens is inside the data directory (component-wise), a path resolving outside is "
+         "refused without any access, refusals open/list nothing, and inside routing follows what is on disk. The model "
+         "(path normalisation, containment, catalog/exists/splitext chain) is compared with DapServer on generated layouts "
+         "with prefix-sibling directories x request paths; an audit hook records every open/listdir/scandir of each request.",
+    note=TB + "OS behaviour (os.path, listdir, webob path decoding) as in this sandbox; no symlinks; data directory name not ending in catalog.xml.",
+    technique="Coq proof over an abstract file system + vm_compute correspondence on real directory layouts with an audit hook",
+    design="7/C16")
+
 NOT_YET = {
 }
 
